@@ -4,6 +4,8 @@ From Pcfg Require Import OmenSpec Omen OmenCorr OmenProofs OmenProofs2 OmenProof
 From Coq Require Import Floats.
 From Pcfg Require Import ProbAlg F64 Next NextSpec NextProofs Expand MarkovSession MarkovSessionProofs MarkovSessionFacts.
 From PcfgGen Require Import Consts_gen.
+From Pcfg Require Session SessionRt SessionModel SessionModelProofs SessionGenProofs.
+From PcfgGen Require Session_gen.
 Import ListNotations.
 
 Theorem C15_source_first_object_range : omen_first_object_extra <= 1.
@@ -312,6 +314,81 @@ Proof. exact (ex_not_tied_sessions omen_first_object_extra C15_source_first_obje
    the heap's choice inside a group of equal probability are trusted / quantified
    over (every pop meeting pop_ok_okb). *)
 
+
+(* ---- translator tie of the session-level bookkeeping: gen/Session_gen.v is the translation of
+   the Python text of CrackingSession._save_session and CrackingSession.run
+   (harness/translate_session.py, redone on every run).  The statements are made in the world
+   of Session.v (SessionModel.sworld: sw_cfg_omen = guessing_info/omen_guess_number of the
+   save configuration, sw_om = the .omn file as (level, guess number), read as a generator
+   state by an arbitrary [st]; sw_saves = the log of save-file writes) ---- *)
+
+(* for every world and every choice of the collaborators the translated _save_session is the
+   model SessionModel.m_save: queue position and - iff omen_exit - the OMEN guess number go
+   into the configuration, which is then written; an OSError of the write gives False *)
+Theorem C15_source_save_session_is_model :
+  forall (W G : Type) (queue_update_save_config : W -> W) (get_omen_exit : W -> bool) (get_omen_guess_num : W -> Z)
+         (cfg_set_omen_number : Z -> W -> W) (write_save_file : W -> SessionRt.sres unit * W) (w : W),
+  Session_gen.py_save_session (G := G) queue_update_save_config get_omen_exit get_omen_guess_num cfg_set_omen_number
+                              write_save_file w =
+  (fst (SessionModel.m_save queue_update_save_config get_omen_exit get_omen_guess_num cfg_set_omen_number write_save_file w),
+   [],
+   snd (SessionModel.m_save queue_update_save_config get_omen_exit get_omen_guess_num cfg_set_omen_number write_save_file w)).
+Proof. exact (@SessionGenProofs.save_session_eq). Qed.
+
+(* the translated _save_session is sess_quit *)
+Theorem C15_source_save_is_sess_quit :
+  forall (st : nat * nat -> saved) (w : SessionModel.sworld) (state : saved),
+  (SessionModel.sw_omen_exit w = true -> option_map st (SessionModel.sw_om w) = Some state) ->
+  fst (fst (SessionGenProofs.src_save w)) = SessionRt.SOk true /\
+  snd (fst (SessionGenProofs.src_save w)) = [] /\
+  SessionModelProofs.sv_of st (snd (SessionGenProofs.src_save w)) =
+  sess_quit (SessionModelProofs.sv_of st w) (SessionModel.sw_omen_exit w) (SessionModel.sw_omen_num w) state.
+Proof. exact SessionGenProofs.source_save_is_sess_quit. Qed.
+
+(* the translated run(load_session = True) of a resumed session (its restored queue empty, so
+   that the main loop returns at once and what is left is the prologue) is sess_restore with
+   cleared = true: restore_omen runs exactly when the configuration holds a guess number - on
+   the level named in the .omn file, from that number on - and the number is removed afterwards
+   unless the user quit inside the restored level again *)
+Theorem C15_source_resume_is_sess_restore :
+  forall (sch : Session.schedule) (fresh restored : list Session.pterm) (level_rest : nat -> nat -> list nat)
+         (st : nat * nat -> saved) (l : option Z) (fuel : nat) (w : SessionModel.sworld),
+  restored = [] -> (forall n, SessionModel.sw_cfg_omen w = Some n -> SessionModel.sw_om w <> None) ->
+  let '(r, o, w') := SessionGenProofs.src_run sch fresh restored level_rest (S fuel) true l w in
+  r = SessionRt.SOk tt /\
+  SessionModel.sw_cfg_omen w' =
+    sv_number (snd (sess_restore true (SessionModelProofs.sv_of st w) (SessionModel.sw_omen_exit w'))) /\
+  match fst (sess_restore true (SessionModelProofs.sv_of st w) (SessionModel.sw_omen_exit w')),
+        SessionModel.sw_cfg_omen w, SessionModel.sw_om w with
+  | Some s, Some n, Some (p, j) =>
+      s = st (p, j) /\
+      o = fst (fst (fst (Session.emit_markov sch (SessionModel.sw_t w) (SessionModel.sw_h w) (level_rest p n) n)))
+  | None, None, _ => o = []
+  | _, _, _ => False
+  end.
+Proof. exact SessionGenProofs.source_resume_is_sess_restore. Qed.
+
+(* and the no-replay requirement on the source: after such a resume whose restored level ran
+   to its end (omen_exit false) the configuration no longer holds a guess number *)
+Theorem C15_source_no_replay :
+  forall (sch : Session.schedule) (fresh restored : list Session.pterm) (level_rest : nat -> nat -> list nat)
+         (st : nat * nat -> saved) (l : option Z) (fuel : nat) (w : SessionModel.sworld),
+  restored = [] -> (forall n, SessionModel.sw_cfg_omen w = Some n -> SessionModel.sw_om w <> None) ->
+  let w' := snd (SessionGenProofs.src_run sch fresh restored level_rest (S fuel) true l w) in
+  SessionModel.sw_omen_exit w' = false -> SessionModel.sw_cfg_omen w' = None.
+Proof. exact SessionGenProofs.source_no_replay. Qed.
+
+(* one iteration of the translated main loop saves exactly when loop_saves says so (R18: a
+   quit seen when the queue is empty is not saved) *)
+Theorem C15_source_iteration_saves_is_loop_saves :
+  forall (sch : Session.schedule) (fresh restored : list Session.pterm) (level_rest : nat -> nat -> list nat)
+         (l : option Z) (w : SessionModel.sworld), SessionModel.sw_cfg_omen w = None ->
+  length (SessionModel.sw_saves (snd (SessionGenProofs.src_run sch fresh restored level_rest 1 true l w))) =
+  length (SessionModel.sw_saves w) +
+  (if loop_saves (match restored with [] => false | _ :: _ => true end)
+                 (Session.should_exit (Session.h_steps (SessionModel.sw_h w) (sch (SessionModel.sw_t w)))) then 1 else 0).
+Proof. exact SessionGenProofs.source_iteration_saves_is_loop_saves. Qed.
+
 Print Assumptions C15_continuation.
 Print Assumptions C15_state_roundtrip.
 Print Assumptions C15_refuted_stale.
@@ -368,3 +445,6 @@ Theorem C15_source_pickle_field_order :
 Proof. split; reflexivity. Qed.
 
 Print Assumptions C15_source_continuation.
+Print Assumptions C15_source_save_is_sess_quit.
+Print Assumptions C15_source_resume_is_sess_restore.
+Print Assumptions C15_source_iteration_saves_is_loop_saves.
